@@ -249,11 +249,16 @@ func main() {
 		workers = runtime.NumCPU()
 	}
 
+	// The sandbox has no memory limit and some scenarios allocate hundreds of megabytes per run
+	// (decompression bombs): without a ceiling the collector lets every worker grow to several
+	// gigabytes and sixteen of them meet the kernel's OOM killer in a long batch. Each worker
+	// gets an equal share of half the machine's memory as its soft limit.
+	memLimit := workerMemLimit(workers)
 	worker := func(mode string, extra []string, outFile string, timeout time.Duration) (string, error) {
 		cmd := exec.Command(bin, "-test.run", "^TestWorker$", "-test.timeout", fmt.Sprintf("%ds", int(timeout.Seconds())+30))
 		cmd.Dir = scratch
 		cmd.Env = append(append([]string{}, env...), "VERIF_PROP="+*prop, "VERIF_MODE="+mode, "VERIF_OUT="+outFile, "VERIF_TIER="+t,
-			"VERIF_SEED="+strconv.FormatUint(seed, 10), "GOMAXPROCS=2")
+			"VERIF_SEED="+strconv.FormatUint(seed, 10), "GOMAXPROCS=2", "GOMEMLIMIT="+memLimit)
 		cmd.Env = append(cmd.Env, extra...)
 		done := make(chan struct{})
 		var out []byte
@@ -383,6 +388,13 @@ func main() {
 			if rerr != nil {
 				errs[w] = fmt.Sprintf("worker %d produced no result (%v): %s", w, err, tail(out, 30))
 				return
+			}
+			if os.Getenv("VERIF_MEMTRACE") != "" {
+				for _, l := range strings.Split(out, "\n") {
+					if strings.HasPrefix(l, "MEMTRACE") {
+						fmt.Println(l)
+					}
+				}
 			}
 			var r workerResult
 			if err := json.Unmarshal(b, &r); err != nil {
@@ -614,4 +626,29 @@ func tail(s string, n int) string {
 		lines = lines[len(lines)-n:]
 	}
 	return strings.Join(lines, "\n")
+}
+
+// workerMemLimit returns the GOMEMLIMIT of one worker: half of MemTotal divided by the
+// number of workers, at least 512 MiB ($VERIF_WORKER_MEMLIMIT overrides it).
+func workerMemLimit(workers int) string {
+	if v := os.Getenv("VERIF_WORKER_MEMLIMIT"); v != "" {
+		return v
+	}
+	total := int64(16 << 30)
+	if b, err := os.ReadFile("/proc/meminfo"); err == nil {
+		for _, line := range strings.Split(string(b), "\n") {
+			var kb int64
+			if n, _ := fmt.Sscanf(line, "MemTotal: %d kB", &kb); n == 1 && kb > 0 {
+				total = kb << 10
+			}
+		}
+	}
+	if workers < 1 {
+		workers = 1
+	}
+	lim := total / 2 / int64(workers)
+	if lim < 512<<20 {
+		lim = 512 << 20
+	}
+	return fmt.Sprintf("%dMiB", lim>>20)
 }
